@@ -845,3 +845,49 @@ Proof.
     destruct (decode_encode f _ cs Hf W Hc) as (cs1 & -> & Hc1 & W1).
     destruct (IH rest cs1 HW' W1 Hc1) as (cs2 & -> & Hc2 & W2). exists cs2. auto.
 Qed.
+
+(* ================= reads that return 0 bytes =================
+   Every list of chunks is either free of empty chunks (all theorems above) or of the form cs1 ++ [] :: cs2: the
+   decoder then behaves as on cs1 alone (an Ok(0) read is EOF) and never looks at cs2. *)
+Definition with_tail (tail : chunks) (a : outcome (frame * chunks)) : outcome (frame * chunks) :=
+  match a with Ok (f, r) => Ok (f, r ++ tail) | Err e => Err e | Crash w => Crash w end.
+
+Lemma read_len_eof_app len7 cs1 cs2 :
+  read_len len7 (cs1 ++ [] :: cs2) =
+  match read_len len7 cs1 with Some (n, r) => Some (n, r ++ [] :: cs2) | None => None end.
+Proof.
+  unfold read_len. destruct (len7 =? 126); [|destruct (len7 =? 127)]; try reflexivity;
+    rewrite read_exact_eof_app; match goal with |- context [read_exact ?k cs1] => destruct (read_exact k cs1) as [[? ?]|] end;
+    reflexivity.
+Qed.
+
+Lemma read_key_eof_app (m : bool) cs1 cs2 :
+  read_key m (cs1 ++ [] :: cs2) =
+  match read_key m cs1 with Some (k, r) => Some (k, r ++ [] :: cs2) | None => None end.
+Proof.
+  unfold read_key. destruct m; [|reflexivity]. rewrite read_exact_eof_app.
+  destruct (read_exact 4 cs1) as [[? ?]|]; reflexivity.
+Qed.
+
+Lemma from_stream_inner_eof_app cs1 cs2 h0 h1 :
+  fst (from_stream_inner (cs1 ++ [] :: cs2) h0 h1) = with_tail ([] :: cs2) (fst (from_stream_inner cs1 h0 h1)).
+Proof.
+  unfold from_stream_inner. destruct (opcode_of_N (N.land h0 15)); [|reflexivity].
+  rewrite read_len_eof_app. destruct (read_len (N.land h1 127) cs1) as [[n c2]|]; [|reflexivity].
+  rewrite read_key_eof_app. destruct (read_key (negb (N.land h1 128 =? 0)) c2) as [[key c3]|]; [|reflexivity].
+  destruct (read_take n (c3 ++ [] :: cs2)) as [d1 r1] eqn:E1. destruct (read_take n c3) as [d2 r2] eqn:E2.
+  destruct (read_take_eof_app c3 cs2 n) as [Hf Hs]. unfold chunks, bytes in *. rewrite E1, E2 in Hf, Hs. cbn [fst snd] in Hf, Hs. rewrite Hf.
+  destruct (blen d2 =? n) eqn:E; [|reflexivity]. apply N.eqb_eq in E. rewrite (Hs E). reflexivity.
+Qed.
+
+Theorem decode_zero_read cs1 cs2 : decode (cs1 ++ [] :: cs2) = with_tail ([] :: cs2) (decode cs1).
+Proof.
+  unfold decode, decode_m. rewrite read_exact_eof_app.
+  destruct (read_exact 2 cs1) as [[hdr c1]|]; [|reflexivity].
+  destruct hdr as [|h0 [|h1 [|? ?]]]; try reflexivity. apply from_stream_inner_eof_app.
+Qed.
+
+(* in particular a read returning 0 before the frame is complete is a read error *)
+Corollary decode_zero_read_truncated f b cs1 cs2 :
+  wf f -> strict_prefix b (encode f) -> wf_chunks cs1 -> concat cs1 = b -> decode (cs1 ++ [] :: cs2) = Err ReadError.
+Proof. intros Hw Hp W Hc. rewrite decode_zero_read, (decode_truncated f b cs1 Hw Hp W Hc). reflexivity. Qed.
